@@ -23,6 +23,7 @@ CONSTANTS
  UseIds = FALSE
  NodeTeardown = FALSE
  MayVanish = FALSE
+ SweepRelays = TRUE
  Aead = FALSE
  CheckIdent = TRUE
  AutoTimers = TRUE
